@@ -14,7 +14,7 @@ import ast
 import re
 
 from ..prog import AnalysisError, dotted, unparse
-from ..absint import to_poly
+from ..absint import to_poly, Poly
 from ..match import pretty
 from . import msgutil as MU
 
@@ -60,6 +60,115 @@ def units(ctx, M, kind):
     return n
 
 
+GDT = "facilities.ca_basic_service.cam_transmission_management.GenerationDeltaTime"
+
+
+def gdt_rules(ctx):
+    """generationDeltaTime: receiver-side reconstruction as a formula identity, and wrap-aware use on the sender side."""
+    P = ctx.prog
+    g = P.cls(GDT)
+    fi = g.methods.get("as_timestamp_in_certain_point")
+    if fi is None:
+        raise AnalysisError("C11: GenerationDeltaTime.as_timestamp_in_certain_point vanished")
+    fl = ctx.flows.get(fi)
+    R = fi.params[1]
+    ren = lambda q: pretty(q)
+    # n := trunc((R - EPOCH + ELAPSED) / 65536)
+    defs = {}
+    for n in ast.walk(fi.node):
+        if isinstance(n, ast.Assign) and isinstance(n.targets[0], ast.Name):
+            defs[n.targets[0].id] = n.value
+    loc = fi.loc
+    ncy = defs.get("number_of_cycles")
+    ok = isinstance(ncy, ast.Call) and dotted(ncy.func) in ("trunc", "math.trunc", "int", "math.floor", "floor") and len(ncy.args) == 1
+    if ok:
+        got = to_poly(P, fi.module, ncy.args[0], ren)
+        want = to_poly(P, fi.module, ast.parse(f"({R} - ITS_EPOCH_MS + ELAPSED_MILLISECONDS) / 65536", mode="eval").body, ren)
+        ok = repr(got) == repr(want)
+    ctx.ob("C11.gdt", fi.short(), "cycles", ok, "number of whole 65536 ms cycles = trunc((reception time in ITS ms) / 65536)", loc)
+    want_c = to_poly(P, fi.module, ast.parse("self.msec + 65536 * number_of_cycles + ITS_EPOCH_MS - ELAPSED_MILLISECONDS", mode="eval").body, ren)
+    rets = [(k, s_, st) for k, s_, st in fl.exits if k == "return" and s_.value is not None]
+    if len(rets) != 2:
+        raise AnalysisError(f"C11: as_timestamp_in_certain_point has {len(rets)} returns (2 expected: same cycle / previous cycle)")
+    seen_same, seen_prev = False, False
+    for k, s_, st in rets:
+        x = fl.expand(s_.value, st)
+        # keep number_of_cycles symbolic
+        x2 = s_.value
+        if isinstance(x2, ast.Name) and x2.id in defs:
+            x2 = defs[x2.id]
+        got = to_poly(P, fi.module, x2, ren)
+        guards = sorted(("" if f.pol else "not ") + norm(pretty(f.key)) for f in st.facts if f.kind == "cond")
+        if repr(got) == repr(want_c):
+            seen_same = True
+            okg = f"{R}>=transformed_timestamp" in guards
+            ctx.ob("C11.gdt", fi.short(), "same-cycle", okg,
+                   f"candidate in the reception cycle is returned exactly when it is not later than the reception time (guards {guards})", f"{fi.module.rel}:{s_.lineno}")
+        elif repr(got) == repr(want_c - Poly.const(65536)):
+            seen_prev = True
+            okg = f"transformed_timestamp>{R}" in guards
+            ctx.ob("C11.gdt", fi.short(), "previous-cycle", okg,
+                   f"otherwise the candidate one full cycle (65536 ms) earlier is returned (guards {guards})", f"{fi.module.rel}:{s_.lineno}")
+        else:
+            ctx.ob("C11.gdt", fi.short(), f"return:{norm(unparse(s_.value))[:30]}", False,
+                   f"returned value `{got!r}` is neither msec + 65536*n + EPOCH - ELAPSED nor that minus 65536: the reconstructed time is not congruent "
+                   "to generationDeltaTime modulo 65536 / not within the last 65536 ms", f"{fi.module.rel}:{s_.lineno}")
+    ctx.ob("C11.gdt", fi.short(), "both-cycles", seen_same and seen_prev, "both the same-cycle and the previous-cycle case are returned", loc)
+    # wrap-aware subtraction: (a - b) mod 65536, either with `%` or as `d = a - b; if d < 0: d += 65536`
+    sub = g.methods.get("__sub__")
+    if sub is None:
+        raise AnalysisError("C11: GenerationDeltaTime.__sub__ vanished")
+    other = sub.params[1]
+    sfl = ctx.flows.get(sub)
+    want_d = to_poly(P, sub.module, ast.parse(f"self.msec - {other}.msec", mode="eval").body, ren)
+    okw, how = False, "unrecognised form"
+    srets = [(s_, st) for k, s_, st in sfl.exits if k == "return" and s_.value is not None and dotted(s_.value) != "NotImplemented"]
+    mods = [n for n in ast.walk(sub.node) if isinstance(n, ast.BinOp) and isinstance(n.op, ast.Mod)]
+    if mods:
+        okw = all(P.try_fold(sub.module, m.right) == 65536 and repr(to_poly(P, sub.module, m.left, ren)) == repr(want_d) for m in mods) and len(srets) == 1
+        how = "(self.msec - other.msec) % 65536"
+    else:
+        first = [n for n in sub.node.body[-2:] + list(ast.walk(sub.node)) if isinstance(n, ast.Assign) and isinstance(n.targets[0], ast.Name)]
+        var = first[0].targets[0].id if first else None
+        base_ok = bool(first) and repr(to_poly(P, sub.module, first[0].value, ren)) == repr(want_d)
+        fix = [n for n in ast.walk(sub.node) if isinstance(n, ast.If) and isinstance(n.test, ast.Compare)]
+        fix_ok = False
+        for n in fix:
+            t = norm(unparse(n.test))
+            if t in (f"{var}<0", f"0>{var}") and len(n.body) == 1 and not n.orelse:
+                b0 = n.body[0]
+                if isinstance(b0, ast.Assign) and dotted(b0.targets[0]) == var and repr(to_poly(P, sub.module, b0.value, ren)) == repr(to_poly(P, sub.module, ast.parse(f"{var} + 65536", mode="eval").body, ren)):
+                    fix_ok = True
+                if isinstance(b0, ast.AugAssign) and dotted(b0.target) == var and isinstance(b0.op, ast.Add) and P.try_fold(sub.module, b0.value) == 65536:
+                    fix_ok = True
+        ret_ok = len(srets) == 1 and norm(unparse(srets[0][0].value)) in (var, f"int({var})")
+        okw = base_ok and fix_ok and ret_ok
+        how = f"{var} = self.msec - other.msec; if {var} < 0: {var} += 65536"
+    ctx.ob("C11.gdt", g.qual[10:] + ".__sub__", "wrap-aware", okw,
+           f"GenerationDeltaTime difference is (a - b) mod 65536 [{how}]" if okw else "GenerationDeltaTime.__sub__ is not (a - b) mod 65536", sub.loc)
+    # sender side: generationDeltaTime objects are ordered only through the wrap-aware difference
+    n_sub = 0
+    for f2 in P.iter_funcs():
+        if "facilities" not in f2.module.name or f2.cls is g:
+            continue
+        if "GenerationDeltaTime" not in f2.module.src:
+            continue
+        for n in ast.walk(f2.node):
+            if isinstance(n, ast.BinOp) and isinstance(n.op, ast.Sub):
+                tl = {t for t in P.expr_types(f2, n.left) if isinstance(t, str)}
+                if GDT in tl or any(t.endswith(".GenerationDeltaTime") for t in tl):
+                    n_sub += 1
+            if isinstance(n, ast.Compare) and any(isinstance(o, (ast.Lt, ast.LtE, ast.Gt, ast.GtE)) for o in n.ops):
+                for side in [n.left] + list(n.comparators):
+                    ts = {t for t in P.expr_types(f2, side) if isinstance(t, str)}
+                    if any(t.endswith(".GenerationDeltaTime") for t in ts):
+                        ctx.ob("C11.gdt", f2.short(), f"ordered-compare:{norm(unparse(n))[:50]}", False,
+                               f"`{unparse(n)[:80]}` orders two generationDeltaTime values without the modulo-65536 difference: after the 16-bit "
+                               "counter wraps every fresh report looks older and generation stalls for up to 65 s", f"{f2.module.rel}:{n.lineno}")
+                        break
+    ctx.ob("C11.gdt", "facilities", "typed-differences-seen", n_sub >= 1, f"{n_sub} wrap-aware differences of GenerationDeltaTime objects found (type inference sees them)", loc)
+
+
 def run(ctx):
     ctx.explanation = (
         "Schema conformance (K9) and interval interpretation (K10). The ASN.1 modules the repository ships as string constants "
@@ -70,7 +179,7 @@ def run(ctx):
         "the guard facts at the store, and compared with the ASN.1 constraint; scaling expressions are compared with the "
         "unit of the data element as polynomial identities; every subscript the readers apply to a decoded message must exist "
         "in the type. One evaluation covers the whole input box.")
-    ctx.declined = ["bit-exact UPER output", "truncation vs rounding of int()", "receiver-side reconstruction arithmetic of generationDeltaTime",
+    ctx.declined = ["bit-exact UPER output", "truncation vs rounding of int()",
                     "'no report stalls generation' beyond the re-arming rule of C10"]
     M = MU.Messages(ctx)
     tot_vals = 0
@@ -79,6 +188,7 @@ def run(ctx):
         tot_vals += ck.n_values
         n = MU.check_stores(ctx, M, kind, "C11.schema", "C11.range")
         ctx.extra[f"{kind}_stores"] = n
+        ctx.extra[f"{kind}_alias_sites"] = MU.check_aliases(ctx, M, kind, "C11.schema", "C11.range")
         units(ctx, M, kind)
     # readers of decoded messages
     nr = 0
@@ -91,6 +201,8 @@ def run(ctx):
         ("facilities.decentralized_environmental_notification_service.denm_reception_management.DENMReceptionManagement.feed_ldm", "denm"),
         ("facilities.decentralized_environmental_notification_service.denm_reception_management.DENMReceptionManagement.reception_callback", "denm")])
     ctx.extra["reader_paths"] = nr
+    gdt_rules(ctx)
+    ctx.floor("C11.gdt", 6)
     ctx.floor("C11.schema", 150, "typed positions")
     ctx.floor("C11.range", 12, "computed integers")
     ctx.floor("C11.unit", 8)
